@@ -860,6 +860,9 @@ func (db *DB) Close(ctx context.Context) (err error) {
 	db.f = nil
 	db.opened = false
 	db.rtx = nil
+	// What was known about the WAL (synced offset, "synced to the end") was only
+	// true while the read lock was held; a later Open must start from scratch.
+	db.syncState = syncState{}
 	db.mu.Unlock()
 
 	if sqlDB != nil {
